@@ -45,6 +45,18 @@ type vxPrimary struct {
 // vxVFSClient serves file contents with range reads, as the backends do.
 type vxVFSClient struct {
 	vxStoreClient
+	// onList, when set, runs once inside the next listing call: what another
+	// goroutine does while that request is in flight (the poll lists and fetches
+	// without holding the file's mutex)
+	onList func()
+}
+
+func (c *vxVFSClient) LTXFiles(ctx context.Context, level int, seek ltx.TXID, useMetadata bool) (ltx.FileIterator, error) {
+	if h := c.onList; h != nil {
+		c.onList = nil
+		h()
+	}
+	return c.vxStoreClient.LTXFiles(ctx, level, seek, useMetadata)
 }
 
 func (c *vxVFSClient) OpenLTXFile(ctx context.Context, level int, minTXID, maxTXID ltx.TXID, offset, size int64) (io.ReadCloser, error) {
@@ -361,6 +373,28 @@ func VxC18TimeTravel() {
 	}
 	// travel to half a second after transaction T
 	T := vx.Choose("T", 1, n)
+	if vx.Fault("travelWhilePolling") {
+		// the application sets the target time while a poll that will find a new file
+		// is in flight (between the poll's listing request and its reply)
+		h.commit()
+		c.upload(h.l0[n+1], h.at(n+1))
+		var terr error
+		c.onList = func() { terr = f.SetTargetTime(ctx, h.at(T).Add(500*time.Millisecond)) }
+		if err := f.pollReplicaClient(ctx); err != nil {
+			vx.ObserveBool("pollError", true)
+		}
+		c.onList = nil
+		vx.Assert("time-travel-succeeds", terr == nil)
+		if terr != nil {
+			return
+		}
+		if !vxCheckView(f, h, T, "in-the-past-after-racing-poll") {
+			return
+		}
+		vx.Assert("reset-time-succeeds", f.ResetTime(ctx) == nil)
+		vxCheckView(f, h, n+1, "after-reset")
+		return
+	}
 	terr := f.SetTargetTime(ctx, h.at(T).Add(500*time.Millisecond))
 	vx.Assert("time-travel-succeeds", terr == nil)
 	if terr != nil {
